@@ -104,9 +104,44 @@ type idErr struct{ id int }
 
 func (e idErr) Error() string { return fmt.Sprintf("verif error #%d", e.id) }
 
+// error values of other shapes with the same identity scheme: a pointer type, and "report" errors that
+// implement Unwrap() []error (the errors.Join shape) with two children or none.  A container must keep
+// the value it was given, whatever its dynamic type.
+type ptrIdErr struct{ id int }
+
+func (e *ptrIdErr) Error() string { return fmt.Sprintf("verif error *#%d", e.id) }
+
+type multiIdErr struct {
+	id   int
+	kids []error
+}
+
+func (e *multiIdErr) Error() string   { return fmt.Sprintf("verif report #%d", e.id) }
+func (e *multiIdErr) Unwrap() []error { return e.kids }
+
+func mkErr(id int) error {
+	switch id % 5 {
+	case 2:
+		return &ptrIdErr{id}
+	case 3:
+		return &multiIdErr{id, []error{idErr{id + 100000}, idErr{id + 200000}}}
+	case 4:
+		return &multiIdErr{id, nil}
+	}
+	return idErr{id}
+}
+
 func errID(e error) int {
 	if e == nil {
 		return -1
+	}
+	switch v := e.(type) {
+	case idErr:
+		return v.id
+	case *ptrIdErr:
+		return v.id
+	case *multiIdErr:
+		return v.id
 	}
 	var ie idErr
 	if errors.As(e, &ie) {
@@ -161,7 +196,7 @@ func parseErrs(s string) []error {
 		if e == "nil" {
 			out = append(out, nil)
 		} else {
-			out = append(out, idErr{atoi(e)})
+			out = append(out, mkErr(atoi(e)))
 		}
 	}
 	return out
@@ -654,7 +689,7 @@ func (c cbSet) UpdateProperties(po tabular.PropertyOwner) error {
 }
 func (c cbFail) UpdateProperties(po tabular.PropertyOwner) error {
 	c.x.events = append(c.x.events, event{c.id, c.x.identify(po)})
-	return idErr{c.e}
+	return mkErr(c.e)
 }
 
 func (x *Exec) findCell(p *tabular.Cell) string {
